@@ -277,6 +277,9 @@ class LoopCtx:
         x = self.st.ghost[name]
         return x.z if isinstance(x, SV) else x
 
+    def frontier(self):
+        return self.st.alloc_base + self.st.alloc_n
+
 
 class IterSpec:
     """abstract iteration domain: n (z3 Int, or None when unbounded) and elem(i)"""
@@ -1264,6 +1267,10 @@ class Interp:
         outer_frozen = st.frozen
         body_st.frozen = frozenset(body_st.store.keys()) | outer_frozen
         body_st.emit('loop_body', loop=name)
+        # objects allocated by earlier iterations live below a fresh (unknown) frontier
+        newbase = z3.Int(sym.fresh_name('R'))
+        body_st.assume(newbase >= body_st.alloc_base + body_st.alloc_n)
+        body_st.alloc_base, body_st.alloc_n = newbase, 0
         self.havoc(body_st, node, spec)
         body_st.assume(k >= 0)
         body_st.assume(self._inv(spec, LoopCtx(body_st, k, n, elem, entry, self)))
